@@ -441,8 +441,11 @@ theorem column_addOne_typed (D : Decls) (Γ0 : List (String × CT)) (s : ChainSt
     · simp only [har, if_true, Except.ok.injEq] at hfin
       subst hfin
       have hall := arithNames_sub har
+      have hint : ("int" : String) ∈ arithAll := by decide
+      have hp1 : ("+" : String) ∉ cmpOps := by decide
+      have hp2 : ("+" : String) ∈ arithOps := by decide
       have hbin : typeOf D s.gamma (.paren (.bin "+" s.e (.lit 1))) = some { cls := t.name, lvl := 0, depth := 0 } := by
-        simp [typeOf, htyped, ctOf, hdepth, hall, cmpOps, arithOps, arithAll, promote_int har]
+        simp [typeOf, htyped, ctOf, hdepth, hall, hint, hp1, hp2, promote_int har]
       cases htr : t.tree with
       | none =>
         simp only [Term.treeType, htr, if_true]
@@ -476,14 +479,18 @@ theorem column_eqConst_typed (D : Decls) (Γ0 : List (String × CT)) (s : ChainS
     simp only [RTy.term] at htyped hdepth hen hisen
     simp only [hty, Except.ok.injEq] at hfin
     subst hfin
+    have heq : ("==" : String) ∈ cmpOps := by decide
     have hbin : typeOf D s.gamma (.paren (.bin "==" s.e (.qual c))) = some { cls := "bool", lvl := 0, depth := 0 } := by
-      simp [typeOf, htyped, ctOf, hdepth, hen, hisen, cmpOps]
+      simp [typeOf, htyped, ctOf, hdepth, hen, hisen, heq]
     have hb : ("bool" : String) ∈ arithAll := by decide
+    have htt : (Term.treeType { name := "bool", depth := 0 }) = { name := "bool", depth := 0 } := rfl
+    have hstr : (Term.str { name := "bool", depth := 0 }) = "bool" := by decide
+    simp only [htt, hstr, if_true]
     constructor
-    · simp [colOk, stripCast, hbin, isDeclaredValue, hb, Term.treeType, Term.str, starsS]
-      split <;> simp
-    · simp [Term.treeType, Term.str, starsS]
-      split <;> simp
+    · unfold colOk
+      simp only [stripCast, hbin, isDeclaredValue, Option.getD_none, hb, starsS]
+      cases s.loops.isEmpty <;> first | rfl | simp
+    · rfl
 
 /-- **C10.deref_var_typed** — `dereference_var` leaves a non-pointer alone and otherwise prefixes one
 `*`, which in C++ has the type with one pointer level less (exactly one, whatever the depth). -/
@@ -571,8 +578,8 @@ theorem enum_first_definition_wins (st : NsState) (nsName : List Char) (name : S
       simp only [defineNs, mem_foldl_addNew]
       exact Or.inr ha
     rw [this]
-  conv => lhs; unfold defineEnum
-  simp only [hsame, he]
+  have hfind : (defineNs (defineEnum st nsName name v1) (splitDots nsName)).findEnum (splitDots nsName) name = some e := he
+  rw [defineEnum_eq_of_find _ nsName name v2 e hfind, hsame]
 
 /-- an enum value has no members: `.x` on it is refused (ValueError) -/
 theorem enum_dot_refused (st : NsState) (cpp ty : List Char) (a : Seg) :
